@@ -429,14 +429,14 @@ int main(int argc, char** argv) {
         _exit(3);
     });
     // watchdog: node and daemon must keep serving; a script operation (a delivery, a tick batch, tearing the daemon down for the next
-    // behaviour) that does not return within two minutes is reported as a hang and ends this driver process
+    // behaviour) that does not return within 90 s is reported as a hang and ends this driver process
     std::thread([] {
         long seen = g_progress.load(); int still = 0;
         for (;;) {
             sleep(5);
             const long now = g_progress.load();
             if (now != seen) { seen = now; still = 0; continue; }
-            if (++still >= 24) { ev::Ev e("hung"); e.s("during", g_last_op); e.emit(); std::fflush(ev::out()); _exit(6); }
+            if (++still >= 18) { ev::Ev e("hung"); e.s("during", g_last_op); e.emit(); std::fflush(ev::out()); _exit(6); }
         }
     }).detach();
     std::ifstream in(argv[1]);
